@@ -5,6 +5,7 @@ import MimeModel.Gen.Tree
 import MimeModel.Spec.All
 import MimeModel.Spec.Json
 import MimeModel.Spec.Zip
+import MimeModel.Model.XmlTok
 /-
   Line-protocol driver for the correspondence check (core Lean only; compiled).
   Input : one operation per line, `op args... => go-result`
@@ -145,6 +146,10 @@ def showParse (r : Bytes × List (Bytes × Bytes) × MT.PErr) : String :=
 
 def isAsciiBytes (b : Bytes) : Bool := b.all (· < 0x80)
 
+def showInst : Option Bytes → String
+  | none => "~"
+  | some b => bhex b
+
 def chainStr (c : List Info) : String :=
   String.intercalate "," (c.map fun i => bhex i.mime ++ "|" ++ bhex i.ext)
 
@@ -246,7 +251,9 @@ def handle (line : String) : String :=
           | none => false
         let path := T.walk acc
         let chain := path.reverse
-        let ext : Ext := { cust := fun _ _ _ => false, htmlToks := fun _ => tg, xmlInst := fun _ => ins }
+        let mi := XmlTok.firstProcInst (trimLWS h)
+        let dxi := if mi == ins then "" else s!"DIFF xmlinst model={showInst mi}"
+        let ext : Ext := { cust := fun _ _ _ => false, htmlToks := fun _ => tg, xmlInst := fun x => XmlTok.firstProcInst (trimLWS x) }
         let cs := match chain with
           | [] => []
           | leaf :: _ => charsetFor ext leaf.mime h
@@ -299,7 +306,7 @@ def handle (line : String) : String :=
             let pre := ofString "text/plain; charset="
             if hasPrefix gleaf pre then Spec.charsetSpec h (bhex (gleaf.drop pre.length)) else ""
           | none => ""
-        let all := [d1, d2, sp, sp8, sp11].filter (· != "")
+        let all := [d1, d2, dxi, sp, sp8, sp11].filter (· != "")
         if all.isEmpty then "OK" else String.intercalate " ; " all
       | _, _, _, _ => "BAD args"
     | ["jparse", q, hx] =>
@@ -327,14 +334,17 @@ def handle (line : String) : String :=
     | ["cs", "xml", hx, inst] =>
       match unhex hx, parseInst inst with
       | some raw, some ins =>
-        let m := bhex (Charset.fromXML raw ins)
-        let d := if m == goRes then "" else s!"DIFF cs-xml model={m}"
+        -- the decoder step is computed by the model of encoding/xml's first raw token and compared with the library's
+        let mi := XmlTok.firstProcInst (trimLWS raw)
+        let di := if mi == ins then "" else s!"DIFF xmlinst model={showInst mi}"
+        let m := bhex (XmlTok.fromXMLBytes raw)
+        let d := if m == goRes || !isAsciiBytes (XmlTok.fromXMLBytes raw) then "" else s!"DIFF cs-xml model={m}"
         -- no encoding declared: the sniffing rules of C11 apply to the result
         let declared := match ins with
           | some i => Charset.xmlEncoding i != []
           | none => false
         let sp := if declared then "" else Spec.charsetSpec raw goRes
-        let all := [d, sp].filter (· != "")
+        let all := [di, d, sp].filter (· != "")
         if all.isEmpty then "OK" else String.intercalate " ; " all
       | _, _ => "BAD args"
     | ["meta", hx] =>
